@@ -121,6 +121,9 @@ func catalogue() []poly {
 		rect(1, 1, 2, 11), {{5, 4}, {7, 5}, {6, 7}, {4, 6}}, rect(10, 1, 11, 11),
 	}
 	var out []poly
+	// a C-shaped hole whose bounding box contains a second hole sitting in its mouth
+	cHole := ring{{2, 2}, {8, 2}, {8, 4}, {4, 4}, {4, 8}, {8, 8}, {8, 10}, {2, 10}}
+	out = append(out, poly{rect(0, 0, 12, 12), cHole, rect(5, 5, 7, 7)}, poly{rect(0, 0, 12, 12), rect(5, 5, 7, 7), cHole}, poly{rect(0, 0, 12, 12), cHole})
 	for _, s := range shells {
 		var ok []ring
 		for _, h := range holes {
